@@ -111,10 +111,31 @@ Possible(prog, w) ==
              lay.pieces[k][1] # lay.pieces[k][2] =>
                  /\ IsMultiple(lay.pieces[k][1], 2 * w)
                  /\ IsMultiple(ISub(lay.pieces[k][2], lay.pieces[k][1]), 2 * w)
-       \* pieces of the file never overlap
-       /\ \A k1, k2 \in 1..Len(lay.pieces) : k1 < k2 => ~Meets(lay.pieces[k1], lay.pieces[k2])
+       \* pieces of the file never overlap (an empty piece - a segment without statements - occupies nothing)
+       /\ \A k1, k2 \in 1..Len(lay.pieces) :
+             (k1 < k2 /\ lay.pieces[k1][1] # lay.pieces[k1][2] /\ lay.pieces[k2][1] # lay.pieces[k2][2]) => ~Meets(lay.pieces[k1], lay.pieces[k2])
        \* the first op sits at address 0
        /\ \E i \in ops : IIsZero(lay.at[i])
+
+SetBits(v, w) == {b \in 0..(w - 1) : MBit(v.mag, b) = 1}
+
+\* The wflip chains of a source segment need fresh ops; the assembler takes them from pad holes or from the area that
+\* starts where the segment's statements end.  Roomy: even in the worst case (every chain op placed in that area) the
+\* area of every segment stays inside the address space and clear of every other piece.  A layout that is possible
+\* but not roomy MAY be refused (no placement policy is prescribed); a roomy one must assemble.
+Roomy(prog, w) ==
+    LET lay == Layout(prog, w)
+        wfs(k) == {i \in 1..Len(prog) : prog[i].k = "wflip" /\ lay.segOf[i] = k}
+        extra(i) == LET v == ExprValue(prog[i].v, lay, i, w)
+                        c == IF v.ok /\ ~v.v.neg THEN Cardinality(SetBits(v.v, w)) ELSE 0
+                    IN IF c > 1 THEN c - 1 ELSE 0
+        RECURSIVE Sum(_)
+        Sum(S) == IF S = {} THEN 0 ELSE LET x == CHOOSE y \in S : TRUE IN extra(x) + Sum(S \ {x})
+    IN \A k \in 1..Len(lay.segEnds) :
+          LET need == Sum(wfs(k))
+              area == <<lay.segEnds[k], IAdd(lay.segEnds[k], N(2 * w * need))>>
+          IN need = 0 \/ ( /\ InWordRange(ISub(area[2], IOne), w)
+                            /\ \A p \in 1..Len(lay.pieces) : lay.pieces[p][1] # lay.pieces[p][2] => ~Meets(area, lay.pieces[p]) )
 
 \* ---- pass 2: constraints on the assembled image -------------------------------------------
 \* img: the loaded file as a sequence of runs <<first word address (Int), <<word values (Int)>> >> of consecutive
@@ -133,7 +154,6 @@ Denotes(prog, lay, img, w, i) ==
        /\ WordAt(img, lay.at[i], w) = f.v
        /\ WordAt(img, IAdd(lay.at[i], N(w)), w) = j.v
 
-SetBits(v, w) == {b \in 0..(w - 1) : MBit(v.mag, b) = 1}
 
 \* walking a wflip statement from its own address: flips exactly the set bits of v in word a, each once,
 \* in max(1, popcount) ops, and arrives at r.  Returns [ok, visited (addresses of the ops after the head)]
